@@ -207,6 +207,7 @@ def quoted(chk, facts):
         if f is None:
             continue
         L = shape.Labels(f, None, None, call_labels=lambda c, t: ["ESC"] if c.endswith(ESCAPERS) else None)
+        n0 = n
         for s_ in fmtstr.sites(f, None, L):
             if not s_["pieces"] or not s_["args"]:
                 continue
@@ -225,7 +226,11 @@ def quoted(chk, facts):
                     chk.ob(rule, "%s@L%s" % (name.split("::")[-2].split(" ")[0].strip("<") if "Display" in name else name.split("::")[-1], s_["line"]), ok,
                            "%s written between quotes %s" % (what, "is escaped (escape_debug)" if ok else "is NOT escaped: a quote or backslash in it breaks the printed text"),
                            where=f.where(s_["line"]), fn=f.name, key="%s:%s" % (rule, name))
-    chk.floor(rule, "quoted payload sites", n, 5)
+        # the printer is in the table because it writes a program string: it must still do so between quotes, escaped
+        chk.ob(rule, "%s:writes-quoted" % (name.split("::")[-2].split(" ")[0].strip("<") if "Display" in name else name.split("::")[-1]), n > n0,
+               "%s is written by this printer as \"<escaped>\" (%d quoted site(s) found; none means it is now printed some other way than the lexer's unescaper inverts)" % (what, n - n0),
+               where=f.where(), fn=f.name, key="%s:%s:writes" % (rule, name))
+    chk.floor(rule, "quoted payload sites", n, 7)
     # patterns: a literal `*` is printed as \* , every other character through escape_debug, the wildcard as *
     f = get_fn(chk, facts, rule, "<cedar_policy_core::ast::pattern::Pattern as std::fmt::Display>::fmt")
     if f is not None:
@@ -239,8 +244,85 @@ def quoted(chk, facts):
         chk.ob(rule, "pattern", ok, "patterns print the wildcard as `*`, a literal star as `\\*` and other characters through escape_debug: literals %s, escape_debug %s" % (lits, esc), where=f.where(), fn=f.name)
 
 
+PIPE_OK = ("values", "sorted_by_key", "sorted", "sorted_by", "sorted_unstable", "sorted_unstable_by_key", "map", "collect", "collect_vec", "into_iter", "iter", "rev",
+           "chain", "cloned", "copied", "branch", "from_residual", "join", "deref", "concat", "as_ref", "id", "to_cedar", "stringify", "clone", "as_slice", "as_str")
+PIPE_DROPS = ("filter", "filter_map", "dedup", "dedup_by", "dedup_by_key", "unique", "unique_by", "take", "skip", "take_while", "skip_while", "step_by", "retain", "truncate",
+              "pop", "remove", "swap_remove", "drain", "next", "last", "nth", "find", "flatten", "flat_map", "map_while", "zip", "min", "max", "first", "split_off", "clear")
+
+
+def policy_set_text(chk, facts):
+    """The text of a policy set contains every policy and template once each: the rendering pipelines only order and map
+    (no filtering / deduplicating step, no set- or map-typed intermediate collection), render with to_cedar, and the whole
+    text joins both lists."""
+    rule = "C05.PRINT.set"
+    facts.load_crate("cedar_policy.lib")
+    f = get_fn(chk, facts, rule, "cedar_policy::api::PolicySet::stringify")
+    g = get_fn(chk, facts, rule, "cedar_policy::api::PolicySet::to_cedar")
+    n = 0
+    for h in (f, g):
+        if h is None:
+            continue
+        unknown, drops, coll = [], [], []
+        for b, t in h.calls():
+            c = callee(t)
+            last = c.split("::")[-1]
+            if last in PIPE_DROPS:
+                drops.append(last)
+            elif last not in PIPE_OK:
+                unknown.append(last)
+            if last in ("collect", "collect_vec", "from_iter"):
+                ty = h.locals[t[3][0]]
+                coll.append(ty)
+        setty = [ty for ty in coll if any(x in ty for x in ("Set<", "Map<", "BTreeSet", "HashSet", "IndexSet", "BTreeMap", "HashMap"))]
+        n += 1
+        chk.ob(rule, "%s:pipeline" % h.name.split("::")[-1], not drops and not unknown and not setty and bool(coll),
+               "%s renders through ordering / mapping steps only: dropping steps %s, unreviewed steps %s, set- or map-typed collections %s (%d collection(s))" % (
+                   h.name.split("::")[-1], drops or "none", unknown or "none", [x[:60] for x in setty] or "none", len(coll)),
+               where=h.where(), fn=h.name, key="%s:%s:pipeline:%s" % (rule, h.name.split("::")[-1], ",".join(sorted(set(drops + unknown)))),
+               sample={"fn": h.name.split("::")[-1], "collections": [x[:80] for x in coll]})
+    if f is not None:
+        def seed(p):
+            if p[0] == 1:
+                for e in p[1:]:
+                    if isinstance(e, list) and e[0] == "f" and e[2] in ("policies", "templates"):
+                        return ["self." + e[2]]
+            return []
+        L = shape.Labels(f, None, seed)
+        got = {}
+        for b, t in f.calls():
+            if callee(t).endswith("iter::Iterator::map") and len(t[2]) > 1 and t[2][1][0] == "k":
+                fnn = (t[2][1][1].get("rf") or t[2][1][1].get("fn") or "")
+                for lab in L.operand_labels(t[2][0]):
+                    got[lab] = fnn.split("::")[-2:] if fnn else None
+        ok = got.get("self.policies") == ["Policy", "to_cedar"] and got.get("self.templates") == ["Template", "to_cedar"]
+        n += 1
+        chk.ob(rule, "stringify:sources", ok, "static policies are rendered from self.policies with Policy::to_cedar and templates from self.templates with Template::to_cedar: %s" % got,
+               where=f.where(), fn=f.name, sample={"sources": {k: v for k, v in got.items()}})
+        agg = [s_ for _, s_ in f.stmts() if s_[0] == "a" and s_[2][0] == "agg" and s_[2][1][0] == "adt" and str(s_[2][1][1]).endswith("StringifiedPolicySet")]
+        ok = False
+        if len(agg) == 1:
+            ops = agg[0][2][2]
+            labs = [L.operand_labels(o) & {"self.policies", "self.templates"} for o in ops]
+            ok = sorted(map(sorted, labs)) == [["self.policies"], ["self.templates"]]
+        n += 1
+        chk.ob(rule, "stringify:result", ok, "the result holds both rendered lists, each from its own source: %s" % ok, where=f.where(), fn=f.name)
+    if g is not None:
+        def seed2(p):
+            for e in p[1:]:
+                if isinstance(e, list) and e[0] == "f" and e[2] in ("policies", "policy_templates"):
+                    return ["S." + e[2]]
+            return []
+        L2 = shape.Labels(g, None, seed2)
+        j = [(b, t) for b, t in g.calls() if callee(t).endswith("::join")]
+        ok = len(j) == 1 and {"S.policies", "S.policy_templates"} <= L2.operand_labels(j[0][1][2][0])
+        n += 1
+        chk.ob(rule, "to_cedar:join", ok, "the policy-set text joins the rendered policies and the rendered templates: %s" % ok, where=g.where(), fn=g.name)
+    chk.floor(rule, "policy-set text obligations", n, 5)
+
+
 def check(chk, facts):
     quoted(chk, facts)
+    policy_set_text(chk, facts)
     scope(chk, facts)
     action(chk, facts)
     policy(chk, facts)
